@@ -11,6 +11,8 @@ CONSTANTS
   Rpbs = {0, 5, 20}
   Sels = {0, 2}
   FeesSet = {0, 2}
+  BlockSets <- MCBlockFew
+  ConsSets <- MCConsFew
 VIEW cvars
 INVARIANTS Inv_C35_V1_NoClauseViolated
 CHECK_DEADLOCK FALSE
